@@ -185,6 +185,38 @@ def scenario(cfg, symbolic: bool, dims: Optional[dict] = None) -> List[str]:
         r = _run(lambda: setattr(c, cfg['name'], operand))
         if cfg['strict']:
             must_raise = 'AttributeError'
+    elif op == 'attr_lifecycle':
+        # a SEQUENCE: names created while strict is off (by assignment and by add_attribute) stay updatable once strict is
+        # switched on; new names are refused then, and accepted again after strict is switched off
+        single = False
+        seq_bad: List[str] = []
+        r1 = _run(lambda: setattr(c, 'note', 'first'))
+        r1b = _run(lambda: c.add_attribute('memo', 1))
+        if cfg['strict']:
+            if r1[0] != 'exc' or r1[1] != 'AttributeError':
+                seq_bad.append(f'strict=True: creating attribute note by assignment gave {r1[:2]}')
+        elif r1[0] != 'ret' or r1b[0] != 'ret':
+            seq_bad.append(f'strict=False: creating attributes failed: {r1[:2]} {r1b[:2]}')
+        _run(lambda: setattr(c, 'strict', True))
+        r2 = _run(lambda: setattr(c, 'note', 'second'))
+        r2b = _run(lambda: setattr(c, 'memo', 2))
+        if r1[0] == 'ret' and (r2[0] != 'ret' or getattr(c, 'note', None) != 'second'):
+            seq_bad.append(f'update of existing attribute note under strict=True: {r2[:2]}')
+        if r1[0] == 'exc' and r2[0] != 'exc':
+            seq_bad.append('strict=True: an attribute refused before was created on the second attempt')
+        if r1b[0] == 'ret' and (r2b[0] != 'ret' or getattr(c, 'memo', None) != 2):
+            seq_bad.append(f'update of attribute memo (from add_attribute) under strict=True: {r2b[:2]}')
+        r3 = _run(lambda: setattr(c, 'other', operand))
+        if r3[0] != 'exc' or r3[1] != 'AttributeError':
+            seq_bad.append(f'strict=True: new attribute other accepted ({r3[:2]})')
+        r3b = _run(lambda: setattr(c, 'X', MARK[absnp.TAGS[kinds['X']]]))
+        if r3b[0] != 'ret':
+            seq_bad.append(f'strict=True: update of variable X refused ({r3b[:2]})')
+        _run(lambda: setattr(c, 'strict', False))
+        r4 = _run(lambda: setattr(c, 'other', operand))
+        if r4[0] != 'ret':
+            seq_bad.append(f'strict switched off again: new attribute other refused ({r4[:2]})')
+        r = ('ret', None)
     elif op == 'add_attribute':
         r = _run(lambda: c.add_attribute('note', 'text'))
     elif op == 'toggle_strict':
@@ -192,7 +224,7 @@ def scenario(cfg, symbolic: bool, dims: Optional[dict] = None) -> List[str]:
     else:
         raise ValueError(op)
 
-    bad: List[str] = []
+    bad: List[str] = list(seq_bad) if op == 'attr_lifecycle' else []
     if must_raise is not None:
         if r[0] != 'exc':
             bad.append(f'{op} with an operand that cannot fit did not raise')
@@ -338,6 +370,7 @@ def configs(tier: str):
                             out.append(cfg9(cls=cls, L=L, kinds=kinds, strict=strict, op='add_variable_dup', operand=od))
                             out.append(cfg9(cls=cls, L=L, kinds=kinds, strict=strict, op='item_set_unknown', operand=od))
                     out.append(cfg9(cls=cls, L=L, kinds=kinds, strict=strict, op='add_attribute', operand=None))
+                    out.append(cfg9(cls=cls, L=L, kinds=kinds, strict=strict, op='attr_lifecycle', operand=('scalar', 'float')))
                     out.append(cfg9(cls=cls, L=L, kinds=kinds, strict=strict, op='toggle_strict', operand=None))
     return out
 
